@@ -257,6 +257,7 @@ func (l *commitLog) append(segment *segment, ms []byte, entries []*entry) ([]int
 	if err := segment.WriteMessageSet(ms, entries); err != nil {
 		return nil, err
 	}
+	crashPoint("append:index-written")
 	var (
 		lastLeaderEpoch = l.leaderEpochCache.LastLeaderEpoch()
 		offsets         = make([]int64, len(entries))
@@ -567,6 +568,7 @@ func (l *commitLog) Truncate(offset int64) error {
 		}
 		deleted++
 	}
+	crashPoint("truncate:tail-deleted")
 
 	var replace bool
 
@@ -609,11 +611,13 @@ func (l *commitLog) Truncate(offset int64) error {
 				break
 			}
 		}
+		crashPoint("truncate:copy-written")
 		if err = newSegment.Replace(seg); err != nil {
 			return err
 		}
 		segments[idx] = newSegment
 	}
+	crashPoint("truncate:replaced")
 	activeSegment := segments[len(segments)-1]
 	atomic.StorePointer((*unsafe.Pointer)(unsafe.Pointer(&l.vActiveSegment)),
 		unsafe.Pointer(activeSegment))
@@ -701,6 +705,7 @@ func (l *commitLog) split(oldActiveSegment *segment) error {
 	if err != nil {
 		return err
 	}
+	crashPoint("split:segment-created")
 	// Do a CAS on the active segment to ensure no other threads have replaced
 	// it already. If this fails, it means another thread has already replaced
 	// it, so delete the new segment and return ErrSegmentExists.
@@ -755,6 +760,7 @@ func (l *commitLog) Clean() error {
 	if err != nil {
 		return err
 	}
+	crashPoint("clean:cleaned")
 	l.mu.Lock()
 	newSegments := l.segments
 	if len(newSegments) > len(oldSegments) {
